@@ -159,6 +159,98 @@ def _decide(res, P, name, build, clause, what, payload):
     return results
 
 
+
+# ---------------------------------------------------------------------------
+# numeric twin: the same operations on NUMERIC numpy state vectors (the branch a symbolic run cannot take). Ground.
+
+NUM_VALUES = {"th0": 0.75, "th1": -1.25, "th2": 0.5, "th3": 2.0}
+
+
+def _num_value(name):
+    """deterministic dyadic value for any symbol name (angles from the table, generic entries by a small hash)"""
+    if name in NUM_VALUES:
+        return NUM_VALUES[name]
+    import zlib
+
+    return ((zlib.crc32(name.encode()) % 33) - 16) / 16.0
+
+
+def _num_states(N, normalised=False):
+    """basis vectors (complex and float dtype), one dense complex vector, one dense real vector"""
+    out = []
+    for j in range(N):
+        e = np.zeros(N, dtype=complex)
+        e[j] = 1.0
+        out.append((f"e{j}", e))
+    e = np.zeros(N, dtype=float)
+    e[N - 1] = 1.0
+    out.append((f"e{N - 1}:float", e))
+    dense = np.array([(j + 1) / 7.0 + 1j * ((j * j) % 5 - 2) / 3.0 for j in range(N)], dtype=complex)
+    real = np.array([((3 * j + 1) % 7 - 3) / 4.0 or 0.5 for j in range(N)], dtype=float)
+    if normalised:
+        dense, real = dense / np.linalg.norm(dense), real / np.linalg.norm(real)
+    out += [("dense", dense), ("dense:float", real)]
+    return out
+
+
+def _num_bad(got, want):
+    got, want = np.asarray(got, dtype=complex).reshape(-1), np.asarray(want, dtype=complex).reshape(-1)
+    if got.shape != want.shape:
+        return f"shape {got.shape} vs {want.shape}"
+    d = float(np.abs(got - want).max())
+    return None if d <= 1e-9 * (1 + float(np.abs(want).max())) else f"max|delta|={d:.3g}"
+
+
+def _numeric_lift_bad(gid, idx, n):
+    op = CS.gate_by_id(gid)(*idx)
+    if op.gate.free_symbols:
+        op = op.bind({s: _num_value(str(s)) for s in op.gate.free_symbols})
+    E = CS.np_embed(CS.np_matrix(op.gate.matrix, {}), list(idx), n)
+    for tag, v in _num_states(1 << n):
+        bad = _num_bad(op.apply(v.copy()), E @ v)
+        if bad:
+            return f"state {tag}: {bad}"
+    return None
+
+
+def _numeric_circ_bad(specs, n, variants, light):
+    c = CS.circuit_from_spec(specs, n)
+    if c.free_symbols:
+        c = c.bind({s: _num_value(str(s)) for s in c.free_symbols})
+    O = CS.np_oracle_unitary(c.operations, n, {})
+    for tag, v in _num_states(1 << n, normalised=True):
+        st = v.copy()
+        for op in c.operations:
+            st = op.apply(st)
+        bad = _num_bad(st, O @ v)
+        if bad:
+            return f"sequential apply on numeric state {tag}: {bad}"
+    if not light or np.abs(O.conj().T @ O - np.eye(1 << n)).max() > 1e-9:
+        return None  # simulators insist on normalised states: only unitary circuits go through them here
+    for variant in variants or ["symbolic"]:
+        for tag, v in _num_states(1 << n, normalised=True):
+            if tag.startswith("e") and tag not in ("e0", f"e{(1 << n) - 1}"):
+                continue
+            wf = make_sim(variant).get_wavefunction(c, v.copy())
+            bad = _num_bad(wf.amplitudes, O @ v)
+            if bad:
+                return f"simulator[{variant}] on numeric state {tag}: {bad}"
+        wf = make_sim(variant).get_wavefunction(c)
+        bad = _num_bad(wf.amplitudes, O[:, 0])
+        if bad:
+            return f"simulator[{variant}] from the default initial state: {bad}"
+    return None
+
+
+def _ground_clause(res, clause, bad, what, payload):
+    res.d["ground_instances"] += 1
+    res.ob(1)
+    if bad:
+        _cand(res, clause, f"{what}: {bad}", payload, {}, clause)
+    else:
+        res.ob(0, 1, "ground-numeric")
+
+
 def _work_lift(res, p):
     from orquestra.quantum.circuits import _gates as G, _unitary_tools as UT
 
@@ -193,6 +285,8 @@ def _work_lift(res, p):
 
     _decide(res, P, "apply", b_apply, "apply", f"{gid}{idx}.apply(state) differs from embedded matrix times state", p)
     res.sample({"lift": gid, "qubits": list(idx), "n": n, "symbolic": symbolic})
+    if not symbolic or gid in ("G1", "G2") or gid.startswith("SG"):
+        _ground_clause(res, "apply-numeric-state", _numeric_lift_bad(gid, idx, n), f"{gid}{idx}.apply on a numeric state vector (n={n}) differs from embedded matrix times state", p)
     if symbolic:
         # vacuity twin: dropping the permutation (placing the gate on sorted indices) must differ
         if list(idx) != sorted(idx):
@@ -270,6 +364,7 @@ def _work_circ(res, p):
 
         _decide(res, P, "simulator:" + variant, b_sim, "simulator:" + variant, f"simulator[{variant}].get_wavefunction([{CS.spec_str(specs)}], psi) differs from U*psi", dict(p, variant=variant))
     res.sample({"circuit": CS.spec_str(specs), "n": n, "free_symbols": len(c.free_symbols)})
+    _ground_clause(res, "numeric-run", _numeric_circ_bad(specs, n, p.get("variants", []), bool(p.get("light"))), f"[{CS.spec_str(specs)}] with every parameter a number, on numeric state vectors", p)
     # vacuity twin: reversed order must differ for a non-commuting pair
     if p.get("twin"):
         res.d["vacuity_twins"] += 1
@@ -377,7 +472,7 @@ def _pool(n, with_g3):
     for q in range(n):
         pool += [("G1", (q,)), ("H", (q,)), ("RZ(th0)", (q,)), ("T", (q,)), ("RY(th1)", (q,))]
     for a, b in itertools.permutations(range(n), 2):
-        pool += [("G2", (a, b)), ("CNOT", (a, b)), ("SWAP", (a, b)), ("ISWAP", (a, b)), ("K2", (a, b)), ("XX(th2)", (a, b)), ("CZ", (a, b))]
+        pool += [("G2", (a, b)), ("CNOT", (a, b)), ("SWAP", (a, b)), ("ISWAP", (a, b)), ("K2", (a, b)), ("XX(th2)", (a, b)), ("CZ", (a, b)), ("D2", (a, b)), ("RZ(0.75)|c1", (a, b))]
     if with_g3 and n >= 3:
         for t in itertools.permutations(range(n), 3):
             pool += [("G3", t)]
@@ -401,6 +496,21 @@ def instances(tier, seed):
                 if tier == "quick" and rng.random() < 0.6:
                     continue
                 items.append(("lift", {"n": n, "gid": f"K{k}", "idx": list(idx), "label": f"K{k}{idx} n={n}"}))
+    # ... and with constant DIAGONAL / MONOMIAL gates and numeric controlled rotations (shapes a numeric fast path singles out)
+    for n in range(2, 5):
+        for k in range(2, min(n, 3) + 1):
+            for idx in itertools.permutations(range(n), k):
+                if tier == "quick" and rng.random() < (0.5 if n < 4 else 0.8):
+                    continue
+                for fam in ("D", "P"):
+                    items.append(("lift", {"n": n, "gid": f"{fam}{k}", "idx": list(idx), "label": f"{fam}{k}{idx} n={n}"}))
+    for gid in ("RZ(0.75)|c1", "PHASE(0.5)|c2", "T|c1", "RZ(-1.25)|c2", "RY(0.75)|c1"):
+        k = 3 if gid.endswith("c2") else 2
+        for n in (k, k + 1):
+            for idx in itertools.permutations(range(n), k):
+                if tier == "quick" and rng.random() < 0.6:
+                    continue
+                items.append(("lift", {"n": n, "gid": gid, "idx": list(idx), "label": f"{gid}{idx} n={n}"}))
     # arity 4: sparse generic gate (symbolic) and constant controlled gates (numpy path) on permuted tuples
     perms4 = list(itertools.permutations(range(4)))
     chosen = perms4 if tier == "thorough" else [(0, 1, 2, 3), (0, 2, 1, 3), (3, 1, 0, 2), (2, 3, 1, 0), (1, 0, 3, 2)] + rng.sample(perms4, 3)
@@ -446,7 +556,7 @@ def instances(tier, seed):
         for q in range(n):
             lp += [("H", (q,)), ("RZ(th0)", (q,)), ("T", (q,)), ("RY(th1)", (q,)), ("RX(th3)", (q,))]
         for a, b in itertools.permutations(range(n), 2):
-            lp += [("CNOT", (a, b)), ("SWAP", (a, b)), ("ISWAP", (a, b)), ("K2", (a, b)), ("XX(th2)", (a, b)), ("CZ", (a, b))]
+            lp += [("CNOT", (a, b)), ("SWAP", (a, b)), ("ISWAP", (a, b)), ("K2", (a, b)), ("XX(th2)", (a, b)), ("CZ", (a, b)), ("D2", (a, b)), ("P2", (a, b)), ("RZ(0.75)|c1", (a, b)), ("PHASE(0.5)|c1", (a, b))]
         specs = [rng.choice(lp) for _ in range(rng.choice([2, 3, 3, 4]))]
         specs.append(("RY(th1)", (n - 1,)))
         vs = VARIANTS if tier == "thorough" else ["symbolic"] + rng.sample(VARIANTS[1:], 3)
@@ -549,6 +659,12 @@ def replay(data):
         return bool(d > 1e-6 * scale), f"max|delta|={d:.3g} (scale {scale:.3g})"
 
     try:
+        if clause == "apply-numeric-state":
+            bad = _numeric_lift_bad(inp["gid"], tuple(inp["idx"]), inp["n"])
+            return bool(bad), bad or "ok"
+        if clause == "numeric-run":
+            bad = _numeric_circ_bad([tuple(x) for x in inp["specs"]], inp["n"], inp.get("variants", []), bool(inp.get("light")))
+            return bool(bad), bad or "ok"
         if "gid" in inp:
             n, idx = inp["n"], tuple(inp["idx"])
             op = CS.gate_by_id(inp["gid"])(*idx)
